@@ -45,3 +45,33 @@ func vTLSExtract(rec []byte) (ok bool, sni string, alpn []string) {
 	_ = srv.Handshake()
 	return
 }
+
+// vTLSClientTry starts a crypto/tls client handshake with the given ECH config
+// list against a peer that says nothing, and classifies the outcome:
+// "malformed" (list rejected by the parser), "novalid" (no usable config),
+// "other" (the list was accepted; the handshake stopped later).
+func vTLSClientTry(list []byte) string {
+	cfg := &tls.Config{EncryptedClientHelloConfigList: list, ServerName: "inner.example", MinVersion: tls.VersionTLS13,
+		CurvePreferences: []tls.CurveID{tls.X25519}, InsecureSkipVerify: true}
+	err := tls.Client(&vOneShotConn{}, cfg).Handshake()
+	if err == nil {
+		return "other"
+	}
+	msg := err.Error()
+	switch {
+	case vContains(msg, "malformed ECHConfigList"), vContains(msg, "malformed"):
+		return "malformed"
+	case vContains(msg, "contains no valid configs"):
+		return "novalid"
+	}
+	return "other"
+}
+
+func vContains(s, sub string) bool {
+	for i := 0; i+len(sub) <= len(s); i++ {
+		if s[i:i+len(sub)] == sub {
+			return true
+		}
+	}
+	return false
+}
